@@ -29,7 +29,11 @@ import (
 // configuration enables every output at once: RTMP, HTTP-FLV, HTTP-TS, HLS (memory file system),
 // RTSP, FLV + MPEG-TS recording, a stream hook (which also feeds remux.Rtmp2AvPacketRemuxer) and,
 // in the second configuration, dummy-audio insertion.  Subscribers of every protocol sit on
-// in-memory connections; a second set joins where the scenario says.
+// in-memory connections (RTSP: one that goes on to SETUP / PLAY as soon as its DESCRIBE is answered and
+// one that stays where the answer leaves it); a second set joins where the scenario says.  A step is
+// one message, the join of the second set, or a staging macro of the model (plStage: a sequence header,
+// k copies of one letter, the join in the middle), which takes lal's count-bounded analysis stages
+// (rtmp2MpegtsFilter, Rtmp2RtspRemuxer, DummyAudioFilter) to and across their thresholds.
 //
 // Everything that touches lal runs in CHILD processes (a batch of scenarios each).  The child writes
 // one line per step and flushes it; the parent attributes a death / hang of the child to the step in
@@ -53,6 +57,8 @@ type plLetter struct {
 	Sh    string `json:"sh"`    // complete, valid sequence header of this kind ("" otherwise)
 	Loose bool   `json:"loose"` // delivery not predicted (message whose forwarded form is empty)
 	Tsx   bool   `json:"tsx"`   // combined with every timestamp class
+	Mac   string `json:"mac"`   // metadata that names an audio codec lal's RTSP remuxer takes over ("" | "pt")
+	Lax   bool   `json:"lax"`   // not a complete valid header, yet lal's structural parsers take parameter sets / a config out of it
 }
 
 type plDef struct {
@@ -137,8 +143,12 @@ func plAlphabet() ([]plDef, map[string]*plDef) {
 					l.Loose = true
 				case o == "tsx":
 					l.Tsx = true
+				case o == "lax":
+					l.Lax = true
 				case strings.HasPrefix(o, "sh="):
 					l.Sh = o[3:]
+				case strings.HasPrefix(o, "mac="):
+					l.Mac = o[4:]
 				}
 			}
 			out = append(out, plDef{l, p})
@@ -185,13 +195,13 @@ func plAlphabet() ([]plDef, map[string]*plDef) {
 		v("avc_sh_ppslen0", mod(avc, 14+ls, 0, 0))
 		v("avc_sh_ppslenmax", mod(avc, 14+ls, 0xff, 0xff))
 		v("avc_sh_cts", mod(avc, 2, 0, 0, 1))
-		v("avc_sh_junksps", plCat(avc[:13], plFill(ls, 0x80), avc[13+ls:]))
-		v("avc_sh_sps1", plCat(avc[:11], plU16(1), []byte{0x67}, []byte{1}, plU16(len(plPps)), plPps))
-		v("avc_sh_sps4", plCat(avc[:11], plU16(4), []byte{0x67, 0x64, 0x00, 0x20}, []byte{1}, plU16(len(plPps)), plPps))
+		v("avc_sh_junksps", plCat(avc[:13], plFill(ls, 0x80), avc[13+ls:]), "lax")
+		v("avc_sh_sps1", plCat(avc[:11], plU16(1), []byte{0x67}, []byte{1}, plU16(len(plPps)), plPps), "lax")
+		v("avc_sh_sps4", plCat(avc[:11], plU16(4), []byte{0x67, 0x64, 0x00, 0x20}, []byte{1}, plU16(len(plPps)), plPps), "lax")
 		// a count field inside the SPS bit stream at its extreme: pic_order_cnt_type 1 with
 		// num_ref_frames_in_pic_order_cnt_cycle = 2^32-2 (ue(v): 31 zeros, 32 ones) and nothing behind it
 		pocMax := []byte{0x67, 0x42, 0x00, 0x1e, 0xd7, 0x00, 0x00, 0x00, 0x01, 0xff, 0xff, 0xff, 0xfe}
-		v("avc_sh_sps_poc1max", plCat(avc[:11], plU16(len(pocMax)), pocMax, []byte{1}, plU16(len(plPps)), plPps))
+		v("avc_sh_sps_poc1max", plCat(avc[:11], plU16(len(pocMax)), pocMax, []byte{1}, plU16(len(plPps)), plPps), "lax")
 		// ---- HEVC sequence header (legacy and enhanced)
 		for _, k := range []struct {
 			pre string
@@ -207,7 +217,7 @@ func plAlphabet() ([]plDef, map[string]*plDef) {
 			}
 			v(k.pre+"_sh_narr0", mod(h, 27, 0))
 			v(k.pre+"_sh_narr2", mod(h, 27, 2))
-			v(k.pre+"_sh_narr4", mod(h, 27, 4))
+			v(k.pre+"_sh_narr4", mod(h, 27, 4), "lax")
 			v(k.pre+"_sh_narr255", mod(h, 27, 255))
 			v(k.pre+"_sh_type0", mod(h, 28, 0))
 			v(k.pre+"_sh_nnal0", mod(h, 29, 0, 0))
@@ -217,13 +227,18 @@ func plAlphabet() ([]plDef, map[string]*plDef) {
 			v(k.pre+"_sh_spslenmax", mod(h, 36+lv, 0xff, 0xff))
 			v(k.pre+"_sh_spslen0", mod(h, 36+lv, 0, 0))
 			v(k.pre+"_sh_ppslenmax", mod(h, 41+lv+lsp, 0xff, 0xff))
-			v(k.pre+"_sh_junksps", plCat(h[:38+lv], plFill(lsp, 0x80), h[38+lv+lsp:]))
+			v(k.pre+"_sh_junksps", plCat(h[:38+lv], plFill(lsp, 0x80), h[38+lv+lsp:]), "lax")
 			// not an hvcC at all: Annex-B parameter sets behind the header (lal's fallback parser)
 			sc := []byte{0, 0, 0, 1}
 			pad := plCat(k.hdr, plFill(23, 0x40))
-			v(k.pre+"_sh_annexb", plCat(pad, sc, plHvps, sc, plHsps, sc, plHpps))
-			v(k.pre+"_sh_annexb_dblsc", plCat(pad, sc, plHvps, sc, sc, plHsps, sc, plHpps))
-			v(k.pre+"_sh_annexb_tailsc", plCat(pad, sc, plHvps, sc, plHsps, sc, plHpps, sc))
+			// lal's fallback parser is used for the legacy header only
+			var laxb []string
+			if k.pre == "hevc" {
+				laxb = []string{"lax"}
+			}
+			v(k.pre+"_sh_annexb", plCat(pad, sc, plHvps, sc, plHsps, sc, plHpps), laxb...)
+			v(k.pre+"_sh_annexb_dblsc", plCat(pad, sc, plHvps, sc, sc, plHsps, sc, plHpps), laxb...)
+			v(k.pre+"_sh_annexb_tailsc", plCat(pad, sc, plHvps, sc, plHsps, sc, plHpps, sc), laxb...)
 			v(k.pre+"_sh_annexb_sc5", plCat(pad, sc, sc[:3], []byte{0, 0, 0, 0, 1}))
 			v(k.pre+"_sh_annexb_nopps", plCat(pad, sc, plHvps, sc, plHsps))
 		}
@@ -346,9 +361,9 @@ func plAlphabet() ([]plDef, map[string]*plDef) {
 		a("aac_sh_a0", []byte{0xa0, 0, 0x12, 0x10}, "sh=aac")
 		a("aac_sh_freq15", []byte{0xaf, 0, 0x17, 0x80})
 		a("aac_sh_freq13", []byte{0xaf, 0, 0x16, 0x90})
-		a("aac_sh_obj0", []byte{0xaf, 0, 0x00, 0x00})
-		a("aac_sh_obj31", []byte{0xaf, 0, 0xf8, 0x84, 0x20})
-		a("aac_sh_ch0", []byte{0xaf, 0, 0x12, 0x00})
+		a("aac_sh_obj0", []byte{0xaf, 0, 0x00, 0x00}, "lax")
+		a("aac_sh_obj31", []byte{0xaf, 0, 0xf8, 0x84, 0x20}, "lax")
+		a("aac_sh_ch0", []byte{0xaf, 0, 0x12, 0x00}, "lax")
 		a("aac_sh_ff", []byte{0xaf, 0, 0xff, 0xff})
 		a("aac_raw_n2", []byte{0xaf, 1})
 		a("aac_raw_n3", []byte{0xaf, 1, 0x21})
@@ -402,7 +417,11 @@ func plAlphabet() ([]plDef, map[string]*plDef) {
 			rate float64
 		}{{"g711a_rate0", 7, 0}, {"g711u_rateneg", 8, -8000}, {"opus_ratebig", 13, 1e15}, {"opus_rate48k", 13, 48000}, {"g711a_rate1", 7, 1},
 			{"id_neg", -1, 44100}, {"id_300", 300, 44100}} {
-			m("m_audio_"+c.n, plCat(onMeta, plMetaObj(plAmfKey("audiocodecid"), plAmfNum(c.id), plAmfKey("audiosamplerate"), plAmfNum(c.rate))))
+			opt := []string{}
+			if c.id == 7 || c.id == 8 || c.id == 13 {
+				opt = append(opt, "mac=pt")
+			}
+			m("m_audio_"+c.n, plCat(onMeta, plMetaObj(plAmfKey("audiocodecid"), plAmfNum(c.id), plAmfKey("audiosamplerate"), plAmfNum(c.rate))), opt...)
 		}
 		m("m_audio_id_string", plCat(onMeta, plMetaObj(plAmfKey("audiocodecid"), plAmfStr("mp4a"), plAmfKey("audiosamplerate"), plAmfStr("x"))))
 		plAlphabetList = out
@@ -429,8 +448,8 @@ func plDumpTla(path string) error {
 	}
 	for i, d := range defs {
 		l := d.l
-		fmt.Fprintf(&sb, "  [name |-> %q, t |-> %q, n |-> %d, b0 |-> %d, b1 |-> %d, hv |-> %s, sh |-> %q, loose |-> %s, tsx |-> %s]",
-			l.Name, l.T, l.N, l.B0, l.B1, tb(l.Hv), l.Sh, tb(l.Loose), tb(l.Tsx))
+		fmt.Fprintf(&sb, "  [name |-> %q, t |-> %q, n |-> %d, b0 |-> %d, b1 |-> %d, hv |-> %s, sh |-> %q, loose |-> %s, tsx |-> %s, mac |-> %q, lax |-> %s]",
+			l.Name, l.T, l.N, l.B0, l.B1, tb(l.Hv), l.Sh, tb(l.Loose), tb(l.Tsx), l.Mac, tb(l.Lax))
 		if i != len(defs)-1 {
 			sb.WriteString(",")
 		}
@@ -442,9 +461,21 @@ func plDumpTla(path string) error {
 // ------------------------------------------------------------------------------------------ scenarios
 
 type plStep struct {
-	Name string    `json:"name"` // Pub | Join
+	Name string    `json:"name"` // Pub | Join | Stage
 	M    *plLetter `json:"m"`
 	Ts   string    `json:"ts"` // z | p1 | p40 | hop | jump | max | dec
+	S    *plStage  `json:"s"`
+}
+
+// plStage is the staging macro of the model: an optional sequence header (Hdr.Name == "" if none), then K
+// copies of letter M, each Ts after the one before; if 0 < J < K the second set of consumers joins after
+// J of them.
+type plStage struct {
+	Hdr plLetter `json:"hdr"`
+	M   plLetter `json:"m"`
+	K   int      `json:"k"`
+	Ts  string   `json:"ts"`
+	J   int      `json:"j"`
 }
 
 type plCfg struct {
@@ -492,16 +523,34 @@ func payloadsDriver(env *Env) error {
 	// the bytes behind every letter must have the attributes the model was given
 	_, amap := plAlphabet()
 	check := func(sc *plScenario) error {
-		for _, st := range sc.Steps {
-			if st.Name != "Pub" {
-				continue
-			}
-			d := amap[st.M.Name]
+		one := func(l *plLetter) error {
+			d := amap[l.Name]
 			if d == nil {
-				return fmt.Errorf("unknown letter %q", st.M.Name)
+				return fmt.Errorf("unknown letter %q", l.Name)
 			}
-			if d.l != *st.M {
-				return fmt.Errorf("letter %q: model says %+v, driver builds %+v", st.M.Name, *st.M, d.l)
+			if d.l != *l {
+				return fmt.Errorf("letter %q: model says %+v, driver builds %+v", l.Name, *l, d.l)
+			}
+			return nil
+		}
+		for _, st := range sc.Steps {
+			switch st.Name {
+			case "Pub":
+				if err := one(st.M); err != nil {
+					return err
+				}
+			case "Stage":
+				if st.S == nil || st.S.K < 1 || st.S.K > 64 {
+					return fmt.Errorf("bad staging macro %+v", st.S)
+				}
+				if st.S.Hdr.Name != "" {
+					if err := one(&st.S.Hdr); err != nil {
+						return err
+					}
+				}
+				if err := one(&st.S.M); err != nil {
+					return err
+				}
 			}
 		}
 		return nil
@@ -529,7 +578,7 @@ type plResult struct {
 func plDefaultObs() M {
 	none := M{"got": false, "bad": 0}
 	return M{"died": false, "stalled": false, "other": false, "hookN": 0, "hook": none, "rec": none, "r0": none, "f0": none,
-		"r1": none, "f1": none, "crash": "", "frame": "", "confirmed": false}
+		"r1": none, "f1": none, "crash": "", "frame": "", "confirmed": false, "desc": false, "pat": false}
 }
 
 func plParent(env *Env, scs []plScenario) error {
@@ -761,6 +810,9 @@ func plAttribute(sc *plScenario, evs []M, died bool, stderr string, seed int64, 
 			if st.Name == "Pub" {
 				e["m"], e["ts"] = st.M, st.Ts
 			}
+			if st.Name == "Stage" {
+				e["s"] = st.S
+			}
 			evs = append(evs, e)
 		} else {
 			evs = append(evs, M{"ev": "End", "obs": obs})
@@ -930,7 +982,9 @@ type plRtspSub struct {
 	url      string
 	buf      []byte
 	cseq     int
-	state    int // 1 DESCRIBE sent, 2 playing, 9 gave up
+	state    int // 1 DESCRIBE sent, 2 playing, 3 described (lazy: never goes on to SETUP), 9 gave up
+	lazy     bool
+	closed   bool // the command session has been disposed of: nothing more will be answered
 	rtpBytes int
 	obs      *plRtspObs
 }
@@ -979,6 +1033,7 @@ func (c *plRtspSub) responses() (resps []string) {
 
 func (c *plRtspSub) await(d time.Duration) (string, bool) {
 	dl := time.Now().Add(d)
+	spins := 0
 	for {
 		if r := c.responses(); len(r) > 0 {
 			return r[0], true
@@ -986,13 +1041,19 @@ func (c *plRtspSub) await(d time.Duration) (string, bool) {
 		if time.Now().After(dl) {
 			return "", false
 		}
-		time.Sleep(100 * time.Microsecond)
+		// the answer comes from the session's goroutine within microseconds: yield first, sleep (a sleep is
+		// a millisecond on this kernel) only when it does not
+		if spins++; spins < 2000 {
+			runtime.Gosched()
+		} else {
+			time.Sleep(100 * time.Microsecond)
+		}
 	}
 }
 
 // advance continues DESCRIBE -> SETUP (interleaved) -> PLAY as far as the server answers.
 func (c *plRtspSub) advance(wait time.Duration) {
-	if c.state != 1 {
+	if c.state != 1 || c.closed {
 		c.responses()
 		return
 	}
@@ -1003,6 +1064,10 @@ func (c *plRtspSub) advance(wait time.Duration) {
 	k := strings.Index(r, "\r\n\r\n")
 	if !strings.HasPrefix(r, "RTSP/1.0 200") || k < 0 {
 		c.state = 9
+		return
+	}
+	if c.lazy {
+		c.state = 3 // stays between DESCRIBE and SETUP for the rest of the scenario
 		return
 	}
 	ch := 0
@@ -1039,9 +1104,10 @@ func plSdpControls(sdp string) (out []string) {
 
 // plRtspObs stands where rtsp.Server stands between a command session and the ServerManager.
 type plRtspObs struct {
-	sm  *logic.ServerManager
-	mu  sync.Mutex
-	sub *rtsp.SubSession
+	sm   *logic.ServerManager
+	mu   sync.Mutex
+	sub  *rtsp.SubSession
+	seen bool // the group has registered the subscriber (it is parked, or its DESCRIBE is being answered)
 }
 
 func (o *plRtspObs) OnNewRtspPubSession(session *rtsp.PubSession) error { return base.ErrRtsp }
@@ -1049,7 +1115,11 @@ func (o *plRtspObs) OnNewRtspSubSessionDescribe(session *rtsp.SubSession) (bool,
 	o.mu.Lock()
 	o.sub = session
 	o.mu.Unlock()
-	return o.sm.OnNewRtspSubSessionDescribe(session)
+	ok, sdp := o.sm.OnNewRtspSubSessionDescribe(session)
+	o.mu.Lock()
+	o.seen = true
+	o.mu.Unlock()
+	return ok, sdp
 }
 func (o *plRtspObs) OnNewRtspSubSessionPlay(session *rtsp.SubSession) error {
 	return o.sm.OnNewRtspSubSessionPlay(session)
@@ -1127,15 +1197,34 @@ func plRunScenario(w *plWorld, sc *plScenario, amap map[string]*plDef, emit func
 			tsSubs = append(tsSubs, ss)
 		}
 		if on("rtsp") {
-			c := &plRtspSub{conn: NewMemConn("g" + suffix), url: "rtsp://h/live/" + stream, state: 1}
-			c.obs = &plRtspObs{sm: sm}
-			c.cs = rtsp.NewServerCommandSession(c.obs, c.conn, rtsp.ServerAuthConfig{}, false, "")
-			go c.cs.RunLoop()
-			c.request("DESCRIBE", c.url, "Accept: application/sdp\r\n")
-			if suffix != "0" {
-				c.advance(2 * time.Millisecond)
+			// one subscriber that goes on to SETUP and PLAY as soon as its DESCRIBE is answered, and one that
+			// stays where the answer leaves it
+			for _, lazy := range []bool{false, true} {
+				c := &plRtspSub{conn: NewMemConn("g" + suffix), url: "rtsp://h/live/" + stream, state: 1, lazy: lazy}
+				c.obs = &plRtspObs{sm: sm}
+				c.cs = rtsp.NewServerCommandSession(c.obs, c.conn, rtsp.ServerAuthConfig{}, false, "")
+				go c.cs.RunLoop()
+				c.request("DESCRIBE", c.url, "Accept: application/sdp\r\n")
+				// the request is handled by the session's goroutine: go on when the group has seen it, so that
+				// "joined before / between these messages" is what happens
+				for dl, spins := time.Now().Add(50*time.Millisecond), 0; time.Now().Before(dl); spins++ {
+					c.obs.mu.Lock()
+					seen := c.obs.seen
+					c.obs.mu.Unlock()
+					if seen {
+						break
+					}
+					if spins < 2000 {
+						runtime.Gosched()
+					} else {
+						time.Sleep(100 * time.Microsecond)
+					}
+				}
+				if suffix != "0" {
+					c.advance(2 * time.Millisecond)
+				}
+				rtspSubs = append(rtspSubs, c)
 			}
-			rtspSubs = append(rtspSubs, c)
 		}
 	}
 	join("0")
@@ -1282,6 +1371,25 @@ func plRunScenario(w *plWorld, sc *plScenario, amap map[string]*plDef, emit func
 		for _, r := range rtspSubs {
 			r.advance(0)
 		}
+		// not judged: has lal left its count-bounded stages (DESCRIBE of the first, parked subscriber answered;
+		// PAT/PMT written to the TS recording)?  Compared with the model's stage state as a coverage figure.
+		for _, r := range rtspSubs {
+			if r.lazy {
+				// (the answer itself travels through the session's write queue: ask the session, not the wire)
+				r.obs.mu.Lock()
+				obs["desc"] = r.obs.sub != nil && r.obs.sub.Stage.Load() != rtsp.SubSessionStageReadDescribe
+				r.obs.mu.Unlock()
+				break
+			}
+		}
+		if on("rects") {
+			files, _ := filepath.Glob(filepath.Join(w.tmp, "ts", stream+"-*.ts"))
+			for _, f := range files {
+				if fi, err := os.Stat(f); err == nil && fi.Size() > 0 {
+					obs["pat"] = true
+				}
+			}
+		}
 		return obs
 	}
 	guarded := func(n int, f func()) bool {
@@ -1300,6 +1408,48 @@ func plRunScenario(w *plWorld, sc *plScenario, amap map[string]*plDef, emit func
 		}
 	}
 	ts := uint32(0)
+	// publish sends one message of letter d, tsop after the one before; the caller appends cur to sent once it
+	// has observed the step
+	publish := func(d *plDef, tsop string) (cur plSent, stalled bool) {
+		switch tsop {
+		case "z":
+			ts = 0
+		case "p1":
+			ts++
+		case "p40":
+			ts += 40
+		case "hop":
+			ts += 3600 * 1000
+		case "jump":
+			ts += 1 << 31
+		case "max":
+			ts = 0xffffffff
+		case "dec":
+			ts -= 20
+		}
+		typ := map[string]uint8{"v": base.RtmpTypeIdVideo, "a": base.RtmpTypeIdAudio, "m": base.RtmpTypeIdMetadata}[d.l.T]
+		// a message is recognised at the consumers by (type, timestamp, bytes): when the same letter
+		// comes back at the same timestamp (e.g. twice "back to 0") the timestamp is moved by 1 ms
+		for dup := true; dup; {
+			dup = false
+			for i := range sent {
+				if sent[i].typ == int(typ) && sent[i].ts == ts && bytes.Equal(sent[i].p, d.p) {
+					dup = true
+					ts++
+					break
+				}
+			}
+		}
+		csid := map[string]int{"v": 6, "a": 4, "m": 5}[d.l.T]
+		p := append([]byte{}, d.p...)
+		msg := base.RtmpMsg{Header: base.RtmpHeader{Csid: csid, MsgLen: uint32(len(p)), MsgTypeId: typ, MsgStreamId: 1, TimestampAbs: ts}, Payload: p}
+		cur = plSent{typ: int(typ), ts: ts, p: d.p, woSdf: d.p}
+		if d.l.T == "m" && bytes.HasPrefix(d.p, plAmfStr("@setDataFrame")) {
+			cur.woSdf = d.p[16:]
+		}
+		stalled = guarded(len(p), func() { g.OnReadRtmpAvMsg(msg) })
+		return
+	}
 	for _, st := range sc.Steps {
 		switch st.Name {
 		case "Join":
@@ -1309,48 +1459,41 @@ func plRunScenario(w *plWorld, sc *plScenario, amap map[string]*plDef, emit func
 				return false
 			}
 		case "Pub":
-			d := amap[st.M.Name]
-			switch st.Ts {
-			case "z":
-				ts = 0
-			case "p1":
-				ts++
-			case "p40":
-				ts += 40
-			case "hop":
-				ts += 3600 * 1000
-			case "jump":
-				ts += 1 << 31
-			case "max":
-				ts = 0xffffffff
-			case "dec":
-				ts -= 20
-			}
-			typ := map[string]uint8{"v": base.RtmpTypeIdVideo, "a": base.RtmpTypeIdAudio, "m": base.RtmpTypeIdMetadata}[d.l.T]
-			// a message is recognised at the consumers by (type, timestamp, bytes): when the same letter
-			// comes back at the same timestamp (e.g. twice "back to 0") the timestamp is moved by 1 ms
-			for dup := true; dup; {
-				dup = false
-				for i := range sent {
-					if sent[i].typ == int(typ) && sent[i].ts == ts && bytes.Equal(sent[i].p, d.p) {
-						dup = true
-						ts++
-						break
-					}
-				}
-			}
-			csid := map[string]int{"v": 6, "a": 4, "m": 5}[d.l.T]
-			p := append([]byte{}, d.p...)
-			msg := base.RtmpMsg{Header: base.RtmpHeader{Csid: csid, MsgLen: uint32(len(p)), MsgTypeId: typ, MsgStreamId: 1, TimestampAbs: ts}, Payload: p}
-			cur := plSent{typ: int(typ), ts: ts, p: d.p, woSdf: d.p}
-			if d.l.T == "m" && bytes.HasPrefix(d.p, plAmfStr("@setDataFrame")) {
-				cur.woSdf = d.p[16:]
-			}
 			before := atomic.LoadInt64(&hook.n)
-			stalled := guarded(len(p), func() { g.OnReadRtmpAvMsg(msg) })
+			cur, stalled := publish(amap[st.M.Name], st.Ts)
 			obs := observe(&cur, stalled, atomic.LoadInt64(&hook.n)-before)
 			sent = append(sent, cur)
 			emit(M{"ev": "Pub", "m": st.M, "ts": st.Ts, "obs": obs})
+			if stalled {
+				return false
+			}
+		case "Stage":
+			// the macro of the model, expanded: every message under its own watchdog, one observation at the end
+			// (got = the last copy arrived, hookN = messages the hook saw during the whole macro)
+			before := atomic.LoadInt64(&hook.n)
+			var cur plSent
+			stalled, have := false, false
+			step := func(d *plDef, tsop string) {
+				if have {
+					sent = append(sent, cur)
+				}
+				cur, stalled = publish(d, tsop)
+				have = true
+			}
+			if st.S.Hdr.Name != "" {
+				step(amap[st.S.Hdr.Name], "p40")
+			}
+			for i := 0; i < st.S.K && !stalled; i++ {
+				if st.S.J > 0 && st.S.J < st.S.K && i == st.S.J {
+					if stalled = guarded(0, func() { join("1") }); stalled {
+						break
+					}
+				}
+				step(amap[st.S.M.Name], st.S.Ts)
+			}
+			obs := observe(&cur, stalled, atomic.LoadInt64(&hook.n)-before)
+			sent = append(sent, cur)
+			emit(M{"ev": "Stage", "s": st.S, "obs": obs})
 			if stalled {
 				return false
 			}
@@ -1370,6 +1513,7 @@ func plRunScenario(w *plWorld, sc *plScenario, amap map[string]*plDef, emit func
 		}
 		for _, r := range rtspSubs {
 			r.cs.Dispose()
+			r.closed = true
 			r.obs.mu.Lock()
 			sub := r.obs.sub
 			r.obs.mu.Unlock()
